@@ -117,6 +117,8 @@ def _run(env, fam, which, pattern, sel, args):
             return f"after {after}: size {size} exceeds the capacity {cap}"
         if not w.stack and size != 0:
             return f"after {after}: no buffered context is active but the size is {size}"
+        if not w.stack and cls.backend_is_buffered():
+            return f"after {after}: no buffered context is active but the backend counts as buffered"
         if cap != cur[0]:
             return f"after {after}: capacity is {cap}, the context discipline says {cur[0]}"
         return None
@@ -144,11 +146,22 @@ def _run(env, fam, which, pattern, sel, args):
         for t in flat:
             if t[0] == "B":
                 c = caps[t[1]]
-                w.enter_backend(c)  # entering never flushes
+                names.append(f"backend({t[1]})")
+                try:
+                    w.enter_backend(c)  # a smaller capacity flushes at once, which may be refused
+                except Exception as e:
+                    if not legit(e):
+                        raise
+                    # the with statement failed: no context was entered, nothing to exit later
+                    bad = check(names[-1] + " (refused)")
+                    if bad:
+                        return finish(True, fail(lambda: f"{cls.__name__} {names}: {bad}"))
+                    if not any(k == "backend" for k, _, _ in w.stack) and cls.backend_is_buffered():
+                        return finish(True, fail(lambda: f"{cls.__name__} {names}: entering the backend-wide context raised, yet the backend still counts as buffered"))
+                    return finish(True, True)
                 saved.append(cur[0] if c is not None else None)
                 if c is not None:
                     cur[0] = c
-                names.append(f"backend({t[1]})")
             elif t == "E":
                 w.enter_obj("o0")
                 saved.append(None)
